@@ -24,13 +24,13 @@ def obligations(tier):
     q = tier == 'quick'
     o = []
     if q:
-        # footer of skeleton 0: every byte position (16 obligations x 12 positions = 192 >= footer length); data region: every
+        # footer of skeleton 0: every byte position (24 obligations x 8 positions = 192 >= footer length); data region: every
         # position of the first 96 bytes (page headers + bodies of the first chunk); other modes / skeleton 1: strided samples
-        for w0 in range(0, 192, 12):
-            o.append(win(0, 0, w0, 12, 1, 1, 0, 700))
-        for w0 in range(0, 96, 12):
-            o.append(win(0, 1, w0, 12, 1, 1, 0, 700))
-        o.append(win(0, 0, 0, 12, 17, 1, 1, 700)); o.append(win(0, 0, 0, 12, 17, 1, 2, 700))
+        for w0 in range(0, 192, 8):
+            o.append(win(0, 0, w0, 8, 1, 1, 0, 1100))
+        for w0 in range(0, 96, 8):
+            o.append(win(0, 1, w0, 8, 1, 1, 0, 1100))
+        o.append(win(0, 0, 0, 8, 23, 1, 1, 1100)); o.append(win(0, 0, 0, 8, 23, 1, 2, 1100))
         o.append(win(0, 1, 0, 8, 11, 1, 1, 700)); o.append(win(0, 1, 0, 8, 11, 1, 2, 700))
         o.append(win(1, 0, 0, 12, 19, 1, 0, 700)); o.append(win(1, 1, 0, 12, 9, 1, 0, 700))
     else:
